@@ -65,6 +65,7 @@ fn main() {
                     "c01" => gens::c01(&mut rng, len),
                     "c04" => gens::c04(&mut rng, len),
                     "c05" => gens::c05(&mut rng, len),
+                    "c06" => gens::c06(&mut rng, len),
                     p => panic!("no generator for {}", p),
                 };
                 out.put_all(&w.exec(&h));
